@@ -570,6 +570,15 @@ _ADD18 = {
     "C18": " Shutdown of the refresh worker is called with value, deadline and cancellable contexts.",
     "C20": " Script steps move the base logger's minimum level while requests are parked; started / finished are expected according to the level at the request's start / finish.",
 }
+_ADD19 = {
+    "C02": " Labels with the ACE prefix in the middle (a decoy for code that searches the name for xn--) next to malformed and shrinking A-labels.",
+    "C09": " On the 32-bit variant a numeric-corner kind uses limits around 2^31 and values sharing one 768 MiB buffer (totals that Stats.Size cannot represent are skipped).",
+    "C15": " Histories include runs of 99..257 (0, nil) reads or zero-length polls.",
+    "C18": " An early-shutdown kind calls Shutdown before Start (optionally a late Start afterwards): only the final refresh, its error returned, nothing later.",
+}
+for _pid, _lt in _ADD19.items():
+    PROPS[_pid]["level_text"] += _lt
+
 for _pid, _lt in _ADD18.items():
     PROPS[_pid]["level_text"] += _lt
 
